@@ -133,6 +133,17 @@ pub fn gen_c08(tier: &str, seed: u64, out: &mut Vec<String>) {
                 }
                 _ => out.push("areas".into()),
             }
+            if rng.chance(1, 40) {
+                // a resize no host can satisfy fails and leaves the byte store as it was: the bounds at the old end still hold
+                let a = rng.pick(&areas).clone();
+                let huge = *rng.pick(&[1u64 << 60, 1 << 52, (1 << 63) - 1]);
+                out.push(format!("resize {:x} {:x}", a.start, huge));
+                let end = a.start.wrapping_add(a.len);
+                out.push(format!("mrb {:x} 1", end));
+                out.push(format!("mr 8 {:x}", end.wrapping_sub(4)));
+                out.push(format!("mw 1 {:x} 5a", end));
+                out.push(format!("mrb {:x} {:x}", a.start, a.len.min(0x40)));
+            }
         }
         out.push("areas".into());
     }
@@ -181,6 +192,28 @@ pub fn gen_c09(tier: &str, seed: u64, out: &mut Vec<String>) {
                 out.push(format!("mrb 3000 {:x}", nl));
             }
         }
+        // the permission of the code area is consulted on every fetch: a running program loses the right to execute an area
+        // the moment its mask changes, and regains it when the mask is restored (no stale decision survives a mem_prot)
+        for mask in [1u64, 3, 0, 2, 6, 7, 4] {
+            let code = vec![0x90u8; 8];
+            out.push(format!("new {} {:x} {:x}", hex(&code), 0x40_0000, 0x40_0000));
+            for off in 0..8u64 {
+                out.push(format!("dec {:x} {} code=Nopd mn=Nop len=1 next={:x} nb=0 nb64=0 ops=- base=- index=- scale=1 disp=0 seg=DS", 0x40_0000 + off, hex(&code[off as usize..]), 0x40_0001 + off));
+            }
+            out.push("setregs 0,0,0,0,0,0,0,0,0,0,0,0,0,0,0,0,400000".into());
+            out.push("step".into());
+            out.push("step".into());
+            out.push(format!("prot 400000 {:x}", mask));
+            out.push("step".into());
+            out.push("state".into());
+            out.push("prot 400000 5".into());
+            out.push("step".into());
+            out.push("state".into());
+            out.push(format!("prot 400000 {:x}", mask));
+            out.push("mrx 400004".into());
+            out.push("step".into());
+            out.push("state".into());
+        }
         // the constructor's code area is R+X: not writable, fetchable
         out.push(format!("new {} {:x} {:x}", hex(&rand_bytes(&mut rng, 20)), 0x40_0000, 0x40_0000));
         out.push("areas".into());
@@ -197,6 +230,29 @@ pub fn gen_c09(tier: &str, seed: u64, out: &mut Vec<String>) {
         out.push("mrx 400000".into());
         out.push("mrb 400000 8".into());
     }
+}
+
+/// stack allocation next to existing areas: the search must skip a slot whose extent (length + entry frame) is not free
+fn stackps_op(rng: &mut Rng, out: &mut Vec<String>) {
+    fn mk(rng: &mut Rng, n: u64) -> String {
+        if n == 0 {
+            return "-".into();
+        }
+        let mut v = vec![];
+        for _ in 0..n {
+            let len = 1 + rng.below(6) as usize;
+            let s: Vec<u8> = (0..len).map(|_| b'a' + rng.below(26) as u8).collect();
+            v.push(hex(&s));
+        }
+        v.join(",")
+    }
+    let argc = rng.below(4);
+    let envc = rng.below(3);
+    let argv = mk(rng, argc);
+    let envp = mk(rng, envc);
+    let len = *rng.pick(&[0x1000u64, 0x800, 0x2000, 0x40]);
+    out.push(format!("stackps {:x} {} {}", len, argv, envp));
+    out.push("areas".into());
 }
 
 pub fn gen_c10(tier: &str, seed: u64, out: &mut Vec<String>) {
@@ -256,6 +312,16 @@ pub fn gen_c10(tier: &str, seed: u64, out: &mut Vec<String>) {
                     };
                     // keep allocations small: only lengths that are cheap or that must be rejected early
                     let nl = if nl > 0x10000 && !(rng.chance(1, 2) && a.start > TOP - 0x10000) { rng.below(0x200) } else { nl };
+                    if rng.chance(1, 10) {
+                        // a size no host can provide: the call fails and the area stays exactly as it was
+                        let huge = *rng.pick(&[1u64 << 60, 1 << 52, (1 << 63) - 1]);
+                        out.push(format!("resize {:x} {:x}", a.start, huge));
+                        out.push("areas".into());
+                        out.push(format!("mrb {:x} 1", a.start.wrapping_add(a.len)));
+                        out.push(format!("mrb {:x} 8", a.start.wrapping_add(a.len).wrapping_sub(4)));
+                        out.push(format!("mwb {:x} 5a", a.start.wrapping_add(a.len)));
+                        out.push(format!("mrb {:x} {:x}", a.start, a.len.min(0x40)));
+                    }
                     out.push(format!("resize {:x} {:x}", target, nl));
                     out.push(format!("mrb {:x} {:x}", target, nl.min(0x200)));
                 }
@@ -270,6 +336,7 @@ pub fn gen_c10(tier: &str, seed: u64, out: &mut Vec<String>) {
                 9 => {
                     out.push(format!("prot {:x} {:x}", if rng.chance(1, 6) { start } else { a.start }, rng.below(9)));
                 }
+                10 if rng.chance(1, 2) => stackps_op(&mut rng, out),
                 _ => {
                     out.push(format!("mrb {:x} {:x}", start, len.min(0x40)));
                 }
